@@ -219,6 +219,19 @@ CHECKS = {
              "the direct path only (counted in evidence.text_skipped).",
         technique="TLA+ value-store spec model-checked with TLC; per-transition behaviour replay through the engine on two input paths",
     ),
+    "C18": dict(
+        category="exploration",
+        text="StmtGen.tla enumerates the components of statements that parse but may be ill-typed (every select-item kind over every column "
+             "type and over missing/qualified/duplicated names, comparisons across all type pairs incl. NULL-bearing columns, ORDER BY / GROUP BY "
+             "on every column and on unknown names, joins with unknown tables, INSERT/UPDATE/DELETE/CREATE TABLE with confused values and "
+             "names) and the session states {no USE, after a failed USE, empty tables, NULL-bearing rows}; every element is used at least once "
+             "plus a seeded sample of the product; each statement goes through Session.ExecQuery under recover() and a watchdog; the "
+             "specification's postcondition is `result or error value`.",
+        design_ref="DESIGN.md 6 (C18)",
+        note="The oracle is deliberately trivial (no panic, no hang); the specification supplies the structure of the input space and the "
+             "session states. Found and repaired with it: avg-orderby-type-assert; failed-use-nil-service (with C17).",
+        technique="TLA+-enumerated statement space (StmtGen.tla over SqlSem/SqlSemGen vocabulary) executed through engine.Session with a crash/hang postcondition",
+    ),
 }
 
 NOT_YET = "check not built yet (build in progress; see DESIGN.md section 6)"
